@@ -375,6 +375,13 @@ def run(prog, ctx):
     ctx.rule("R03.3", "calc_phase_permutation == (-1)^(inversions among odd entries), exhaustive for length <= 4")
     from rules.c09_typestate import check_mirrors
 
+    ctx.rule("R03.4", "abstract evaluation against an independent reference: transpose multiplies every block by the sign of the permutation "
+                      "restricted to its odd charges")
+    ctx.rule("R03.5", "abstract evaluation against an independent reference: every pair product of a contraction of even-parity operands "
+                      "carries the graded (Koszul) sign, in the blockwise and the fused strategy")
+    from rules.sem_graded import check_graded
+
+    ctx.guarded("R03.5", prog.func("symmray.fermionic_core:tensordot_fermionic"), check_graded, prog, ctx)
     tr = prog.func("symmray.fermionic_core:FermionicArray.transpose")
     td = prog.func("symmray.fermionic_core:tensordot_fermionic")
     ctx.guarded("R03.1", td, check_convention, prog, ctx)
